@@ -229,6 +229,9 @@ func (c *PullClient) requestSDP() (err error) {
 	}
 
 	for _, media := range c.sdp.Media {
+		if len(media.Format) == 0 { // 没有格式描述的媒体行，忽略
+			continue
+		}
 		switch media.Type {
 		case "video":
 			c.vControl = media.Attributes.Get("control")
@@ -406,7 +409,7 @@ func (c *PullClient) getSetupURL(ctrl string) (setupURL *url.URL, err error) {
 
 	setupURL = new(url.URL)
 	*setupURL = *c.url
-	if setupURL.Path[len(setupURL.Path)-1] == '/' {
+	if len(setupURL.Path) > 0 && setupURL.Path[len(setupURL.Path)-1] == '/' {
 		setupURL.Path = setupURL.Path + ctrl
 	} else {
 		setupURL.Path = setupURL.Path + "/" + ctrl
